@@ -78,6 +78,8 @@ Fixpoint model_mismatches (i : nat) (cs : list case) : list (nat * nat) :=
    class 6: BeginBlock(h) "paid" a delegator a NEGATIVE matured reward withdrawal
    class 7: a delegator's balance is negative
    class 8: an active delegation entry is negative
+   class 10: a pending undelegation / pending reward withdrawal of a height already reached is not
+             cleared (non-zero): matured but lost, or paid but left in place
    class 9: the rewards credited to the delegators in BeginBlock are not proportional to the active
             delegations at the beginning of the block: there is no total D >= 0 with
             accrual(a) = floor (D * active(a) / pool) for every delegator that has an active key and
@@ -117,7 +119,9 @@ Definition snap_classes (m : mon) (cur : snap) : list nat :=
   ++ (if negb (m_don m) && negb (s_pool cur - lsum (s_active cur) =? m_gap m) then [2%nat] else [])
   ++ (if forallb (fun v => 0 <=? v) (s_rew cur) then [] else [4%nat])
   ++ (if forallb (fun v => 0 <=? v) (s_bal cur) then [] else [7%nat])
-  ++ (if forallb (fun x => 0 <=? x.2) (s_active cur) then [] else [8%nat]).
+  ++ (if forallb (fun x => 0 <=? x.2) (s_active cur) then [] else [8%nat])
+  ++ (if forallb (fun x => negb ((1 <=? x.1.1)%N && (x.1.1 <=? m_h m)%N) || (x.2 =? 0))
+                 (s_pend cur ++ s_rpend cur) then [] else [10%nat]).
 
 Fixpoint monitor (n : nat) (k : N) (i : nat) (m : mon) (ops : list op) (res : list bool)
          (snaps : list snap) : list (nat * nat) :=
